@@ -38,7 +38,8 @@ fn search_id_annot(
     GlobalNameSearchRequest::Toplevel(mod_ref, name)
       if mod_ref.eq(&annotation.module_reference) && name.eq(&annotation.id.name) =>
     {
-      collector.push(annotation.location);
+      // The location of the name itself, not of the whole annotation with its type arguments.
+      collector.push(annotation.id.loc);
     }
     _ => {}
   }
